@@ -78,7 +78,8 @@ CHECKS["C12"] = dict(
     level_note="Handlers are called directly (no swagger request validation). Bounds: 2 silence slots, ends +1/+2/+4 s, retention 3 s, depth 5 (quick) / 8 (thorough). Exact boundary instants (now == end) are not generated: the statement does not fix them.",
     assumptions=E1_ASSUME,
     units=[dict(pkg="api/v2", test="TestVerifC12", shards_quick=16, shards_thorough=16, budget_quick=90, budget_thorough=1200),
-           dict(pkg="silence", test="TestVerifC12Validate", shards_quick=1, shards_thorough=1, budget_quick=60, budget_thorough=300)],
+           dict(pkg="silence", test="TestVerifC12Validate", shards_quick=1, shards_thorough=1, budget_quick=60, budget_thorough=300),
+           dict(pkg="silence", test="TestVerifC12Fetched", shards_quick=1, shards_thorough=1, budget_quick=60, budget_thorough=300)],
 )
 
 CHECKS["C09"] = dict(
